@@ -284,6 +284,13 @@ func writeOut(res RunResult) {
 func buildOverlay() (map[string][]byte, []string, error) {
 	ov := map[string][]byte{}
 	pkgDirs := map[string]bool{}
+	allDirs := map[string]bool{}
+	type ovFile struct {
+		path, dir string
+		internal  bool
+		data      []byte
+	}
+	var files []ovFile
 	err := filepath.Walk(*harnessDir, func(path string, info os.FileInfo, err error) error {
 		if err != nil || info.IsDir() || !strings.HasSuffix(path, ".go") {
 			return err
@@ -300,11 +307,23 @@ func buildOverlay() (map[string][]byte, []string, error) {
 		name := filepath.Base(rel)
 		if !strings.HasPrefix(dir, "internal/") {
 			name = "zz_verif_" + name
-			pkgDirs["./"+dir] = true
+			allDirs["./"+dir] = true
+			// a package is loaded only if it holds a harness of the selected property or a
+			// harness-side model: an edit of /repo that breaks the harness of another
+			// package must not make this property inconclusive
+			txt := string(b)
+			if *prop == "" || strings.Contains(txt, "VerifH_"+*prop+"_") || strings.Contains(txt, "VerifHT_"+*prop+"_") {
+				pkgDirs["./"+dir] = true
+			}
 		}
-		ov[filepath.Join(*repoDir, dir, name)] = b
+		files = append(files, ovFile{filepath.Join(*repoDir, dir, name), "./" + dir, strings.HasPrefix(dir, "internal/"), b})
 		return nil
 	})
+	for _, f := range files {
+		if f.internal || pkgDirs[f.dir] {
+			ov[f.path] = f.data
+		}
+	}
 	var dirs []string
 	for d := range pkgDirs {
 		dirs = append(dirs, d)
@@ -345,8 +364,17 @@ func load() (*ssa.Program, []*packages.Package, map[string]*ssa.Function, error)
 	prog.Build()
 	// harness-side models: //verif:model <callee full name>
 	hm := map[string]*ssa.Function{}
-	for _, p := range initial {
+	var withModels []*packages.Package
+	packages.Visit(initial, nil, func(p *packages.Package) {
+		if strings.HasPrefix(p.PkgPath, modPath) {
+			withModels = append(withModels, p)
+		}
+	})
+	for _, p := range withModels {
 		sp := prog.Package(p.Types)
+		if sp == nil {
+			continue
+		}
 		for _, f := range p.Syntax {
 			for _, d := range f.Decls {
 				fd, ok := d.(*ast.FuncDecl)
